@@ -12,11 +12,13 @@
    `prune` releases, in its order -- via Paging/TreeClean.v (the code's control flow and address
    arithmetic on the tree), Paging/RefineCleanExact.v (memory = that) and Paging/CleanArith.v
    (that = prune: the which-tables-overlap arithmetic, gap included); and whole call histories
-   with clean-ups anywhere run on the memory model exactly as on the tree model.  Partial:
-   RecursivePageTable's clean-up is tied by the correspondence check (deallocation log of every
-   call, the oracle's own table bookkeeping), not proved. *)
+   with clean-ups anywhere run on the memory model exactly as on the tree model.  The same exactness is proved for RecursivePageTable's clean-up
+   (C10_recursive_memory_clean_up_is_prune: every child table reached through the recursive
+   address of the clamped sub-range start, the recursive slot skipped and left intact, no access
+   faults; Paging/RecClean*.v).  Partial (all mappers): that rustc compiles the code as the
+   model reads it; Rust-level memory safety. *)
 From X86 Require Import Addr.Canon Paging.Mapped Paging.Tree Paging.TreeProofs Paging.Refine Paging.RefineClean
-  Paging.RefineHistory Paging.RefineHistoryClean Paging.TreeClean Paging.CleanArith Paging.RefineFull.
+  Paging.RefineHistory Paging.RefineHistoryClean Paging.TreeClean Paging.CleanArith Paging.RefineFull Paging.Recursive Paging.RecRefine Paging.RecCleanTop.
 Require Import Permutation.
 Open Scope Z_scope.
 
@@ -104,3 +106,21 @@ Theorem C10_whole_histories_memory_equals_tree : forall rootf allocs ri ops,
     Inv s' ch' /\ wf_children ch'.
 Proof. exact mapped_model_refines_tree_model. Qed.
 Print Assumptions C10_whole_histories_memory_equals_tree.
+
+(* RecursivePageTable::clean_up_addr_range on table memory, every recursive index and every range
+   of 4 KiB pages: runs to completion without a fault, leaves memory representing exactly the tree
+   `prune` leaves when it skips the recursive slot, releases exactly prune's frames in its order,
+   keeps the recursive slot (and the invariant) intact and writes nothing outside the hierarchy *)
+Theorem C10_recursive_memory_clean_up_is_prune : forall r s ch rs re,
+  rInv r s ch -> wf_children ch ->
+  canonical rs -> canonical re -> rs mod 4096 = 0 -> re mod 4096 = 0 ->
+  exists s', rclean_up_addr_range s rs re = Ok s' /\
+    faulted s' = faulted s /\
+    rInv r s' (fst (if re <? rs then (ch, []) else prune 4 (page_pos rs) (page_pos re) r ch 0)) /\
+    freed s' = rev (snd (if re <? rs then (ch, []) else prune 4 (page_pos rs) (page_pos re) r ch 0)) ++ freed s /\
+    alloc s' = alloc s /\ nalloc s' = nalloc s /\ root s' = root s /\
+    wf_children (fst (if re <? rs then (ch, []) else prune 4 (page_pos rs) (page_pos re) r ch 0)) /\
+    child (fst (if re <? rs then (ch, []) else prune 4 (page_pos rs) (page_pos re) r ch 0)) (Z.to_nat r) = child ch (Z.to_nat r) /\
+    (forall a, 0 <= a -> ~ in_frames (root s :: frames_of ch) a -> rd s' a = rd s a).
+Proof. exact rclean_up_addr_range_is_prune_unconditional. Qed.
+Print Assumptions C10_recursive_memory_clean_up_is_prune.
